@@ -160,6 +160,29 @@ PROPS['C12'] = {
     'level_text': 'bounded model checking of one directive from an arbitrary loader / assembler state (the inductive step); the composition over a sequence of directives is the induction, stated in DESIGN.md',
     'level_note': 'trusted: Kani/CBMC/solver soundness; loader loop bound as stated',
 }
+PROPS['C08'] = {
+    'explanation': 'bookkeeping obligations only: (assembler) a code label is recorded as the index of the next emitted instruction, a procedure as the index of its first '
+                   'instruction, the closing brace / RET emit exactly one "ret", CALL is accepted iff the name is a procedure; (interpreter) CALL pushes its index + 1 and '
+                   'continues at the recorded index, RET resumes at the innermost pushed index (2 nested calls, arbitrary pre-existing frame), RET without CALL is an error value',
+    'bounds': 'out.code holds <= 3 lines, tables hold one name, call nesting 2 (+1 pre-existing frame); String loops unwound 6-8 times',
+    'extra_harnesses': r'^c14_(label|proc)_definition$|^c14_call$',
+    'outside': 'the run loop of CMDDriver::run (start lookup, appended hlt, State dispatch), hence program-level traces; macro expansion (C13)',
+    'backends': [(r'.*', ['sat', 'z3'])],
+    'assumptions': ['label / procedure tables = association list under Kani', 'alloc::fmt::format stubbed'],
+    'level_text': 'bounded model checking of the index bookkeeping that makes jumps, calls and returns land on the right instruction; the whole-program statement is not decided',
+    'level_note': 'partial claim: the run loop cannot be called in isolation and a re-implementation would not be the real code',
+}
+PROPS['C14'] = {
+    'explanation': '(E1) every rejecting action of the assembler, from a symbolic table state: duplicate label / procedure, CALL of a non-procedure, jump to a data label, '
+                   'OFFSET / byte / word operand on a code label or unknown name, INT other than 3/10h/21h, IN/OUT/LDS/LES/WAIT/ESC/LOCK/INTO/IRET, print range leaving 1 MiB: '
+                   'Err and no line pushed.  (E2) families of invalid token shapes have no derivation in the assembler grammar.',
+    'bounds': 'tables with one name (absent / DATA / CODE / procedure), out.code <= 3 lines; E2: one source line at a time',
+    'outside': 'undefined jump targets and the missing start label are checked inside CMDDriver::run (the assembler only records them: asserted); "no instruction is executed" is run()\'s control flow',
+    'backends': [(r'.*', ['sat', 'z3'])],
+    'assumptions': ['association-list tables under Kani', 'alloc::fmt::format stubbed'],
+    'level_text': 'bounded model checking of each semantic check for every table state and operand value; grammar-level emptiness by SMT over the real grammar',
+    'level_note': 'partial claim: the two driver-level checks are outside',
+}
 
 NOT_APPLICABLE = {
     'C13': 'macro definition/use is regex::Regex + a recursive call of the generated parser on heap strings; Kani cannot compile the regex engine or the LALRPOP driver (compiler ICE), and a hand model of the substitution would not be the real code',
